@@ -115,9 +115,9 @@ def multi_history(rng, length):
         elif roll < 0.50:
             steps.append({'name': 'clean', 'h': 'hp', 'vacuum': rng.random() < 0.3})
         else:
-            kind = rng.choice(['has', 'get', 'meta', 'list', 'list'])
+            kind = rng.choice(['has', 'get', 'meta', 'list', 'list', 'listpart'])
             step = {'name': kind, 'h': rng.choice(HANDLES)}
-            if kind != 'list':
+            if kind not in ('list', 'listpart'):
                 # mostly keys that exist (no fallback => the snapshot stays pinned), sometimes absent ones
                 pool = keys if rng.random() < 0.7 else seq.UNIVERSE
                 step['keys'] = sorted({rng.choice(pool) for _ in range(rng.randint(1, 3))})
